@@ -1,4 +1,4 @@
-"""C06 — locked machines serialize event processing under every thread schedule.
+"""C06 — locked machines serialize event processing under every thread schedule (incl. dynamic add_model/remove_model).
 
 Correspondence: a CONTROLLED SCHEDULER drives real threads on the real LockedMachine /
 LockedHierarchicalMachine (no source hooks).  Worker threads stop at yield points that are supplied
@@ -31,59 +31,90 @@ _SLOW = [0]                   # stuck / hung cases seen by this process: afterwa
 def step_timeout():
     return STEP_TIMEOUT if _SLOW[0] < 2 else 1.0
 
-RULE = ('program = class (LockedMachine / LockedHierarchicalMachine / graph variants), machine_context (default '
-        'PicklableLock, or 1-2 instrumented user contexts), 1-3 models each with 0-2 instrumented model contexts '
-        '(possibly shared), a 3-state machine with 2 events, 2-4 threads x 1-3 calls: events (via model.trigger or the '
-        'event method) on shared/distinct models, set_state, add_transition, add_states, remove_model (of a spare model); '
-        'callbacks (prepare_event/before/after/finalize) raise or call the machine again (nested events on any model, '
-        'set_state, add_transition; depth <= 2). %d sampled schedules per program (random bursts, then two completion '
-        'passes); thorough tier adds every maximal schedule (no blocked attempts) of small programs enumerated by the '
-        'model. Compared per schedule: acquire/release/blocked log of the instrumented contexts, callback segments '
-        '(thread, call, slot, model, state seen), result of every call (nested too), final model states / registered '
-        'models / states / transitions, all-done flag, serial-equivalence flag. Non-trivial: the schedule produced at '
-        'least one blocked attempt (real contention) or a nested call; distinct by case hash.' % SCHEDULES_PER_PROGRAM)
+RULE = ('program = class (LockedMachine / LockedHierarchicalMachine), machine_context (default PicklableLock, or 1-2 '
+        'instrumented user contexts), 1-5 model objects (event targets with 0-2 instrumented, possibly shared, model '
+        'contexts; spare models, registered or not), a 3-state machine with 2 events, 2-4 threads x 1-3 calls: events (via '
+        'model.trigger or the event method) on shared/distinct models, set_state, add_transition, add_states, '
+        'add_model with LISTS (a registered model first / last / repeated inside the list, new models, with and without '
+        'model_context, bare object or list) and remove_model; callbacks (prepare_event/before/after/finalize) raise or '
+        'call the machine again (nested events on any model, set_state, add_transition; depth <= 2). Streams: std (60%%: '
+        'registration calls only move spare models but their lists also name registered event targets), setup (33%%: an extra '
+        'thread first runs 2-6 add_model / remove_model calls on the EVENT TARGETS - re-add with another model_context, '
+        'remove then add again, targets that only the setup registers - then several threads send events to every target), '
+        'removed (7%%, outside the envelope: events race with remove_model of their model). %d sampled schedules per program '
+        '(random bursts, then two completion passes); thorough tier adds every maximal schedule (no blocked attempts) of '
+        'small programs enumerated by the model. Compared per schedule: acquire/release/blocked log of the instrumented '
+        'contexts, callback segments (thread, call, slot, model, state seen), result of every call (nested too), final model '
+        'states / machine.models / states / transitions / model_context_map, all-done flag, serial-equivalence flag, '
+        'left-the-envelope flag. Oracle on the implementation alone: no overlap, serial replay, contexts held in the order '
+        'CONFIGURED by the add_model/remove_model calls completed so far (an independent reading of what they configure), '
+        'final model_context_map = that configuration. Non-trivial: the schedule produced at least one blocked attempt '
+        '(real contention) or a nested call; distinct by case hash.' % SCHEDULES_PER_PROGRAM)
 ASSUMPTIONS = [
     'PARTIAL: threading.Lock, threading.get_ident and the GIL are assumed to behave as the mutex / thread identity / '
     'atomic attribute access of the model; user contexts are assumed to be non-re-entrant locks',
     'interleavings inside steps that cannot be observed without source hooks (between the unlocked read of '
-    'ident.current and the first acquire; around IdentManager.__enter__/__exit__; around the default PicklableLock) '
-    'are covered by the theorems (all fine-grained schedules) but exercised only as macro steps',
-    'no context object is configured twice for one call (wf_cfg); events are not sent to models that were removed '
-    '(LockedEvent then finds an empty context list and runs unlocked - outside the envelope, see report)',
-    'the controller declares a thread stuck if it does not reach its next yield point within %.0f s (a whole case: %.0f s); such a case is reported as a disagreement' % (STEP_TIMEOUT, 12.0),
+    'ident.current / model_context_map and the first acquire; around IdentManager.__enter__/__exit__; around the default '
+    'PicklableLock) are covered by the theorems (all fine-grained schedules) but exercised only as macro steps',
+    'envelope (ghost flag g_bad of the model stays down): no call enters with an empty context list (an event sent to a '
+    'model that is not registered at that moment - candidate KF-C06-3) or with a context object configured twice; '
+    'C06_contexts_held speaks about top-level calls (nested events on another model: candidate KF-C06-2)',
+    'add_model / remove_model in generated programs do not raise (valid initial state; remove_model only of models '
+    'that no other thread removes, except in the removed stream)',
+    'the controller declares a thread stuck if it does not reach its next yield point within %.0f s (a whole case: %.0f s); '
+    'such a case is reported as a disagreement' % (STEP_TIMEOUT, 12.0),
 ]
-THEOREMS = ['C06_invariant', 'C06_mutex', 'C06_serial', 'C06_serial_in_progress', 'C06_reentrant',
-            'C06_reentrant_never_blocked', 'C06_contexts_held_code', 'C06_contexts_held', 'C06_contexts_order',
-            'C06_contexts_released', 'C06_same_calls', 'C06_progress', 'C06_macro_runs_are_schedules', 'C06_example',
-            'C06_contexts_held_hier_refuted', 'C06_contexts_held_nested_refuted']
+THEOREMS = ['C06_invariant', 'C06_mutex', 'C06_serial', 'C06_serial_in_progress', 'C06_same_calls', 'C06_reentrant',
+            'C06_reentrant_never_blocked', 'C06_entry_reads_configuration', 'C06_contexts_fixed', 'C06_contexts_held',
+            'C06_contexts_order', 'C06_contexts_released', 'C06_progress', 'C06_macro_runs_are_schedules', 'C06_example',
+            'C06_contexts_held_hier_refuted', 'C06_contexts_held_nested_refuted', 'C06_mutex_unregistered_refuted']
 THEOREM_OF_DIFF = 'corr_C06: Lock.step (macro steps) = controlled run of the real locked machine (Props/C06.v)'
 
 
 # ------------------------------------------------------------------ encoding
+# case['models'] = [[model id, initial state, registered at start (0/1), [model_context ids]] ...]
+# case['calls']  = [[cid, kind, a, b, c, script, [models], [model_context ids]] ...]
 def enc(case):
     hier = case['cls'] in HIER
     return [case.get('mode', 0),
-            [case['mctx'] or [0], [[m, list(cx)] for m, _, cx in case['models']], bool(hier)],
-            [case['states'], [list(t) for t in case['trans']], [[m, s] for m, s, _ in case['models']]],
-            [[c[0], c[1], c[2], c[3], c[4], [list(x) for x in c[5]]] for c in case['calls']],
+            [case['mctx'] or [0], bool(hier)],
+            [case['states'], [list(t) for t in case['trans']],
+             [[m, s, bool(r), list(cx)] for m, s, r, cx in case['models']]],
+            [[c[0], c[1], c[2], c[3], c[4], [list(x) for x in c[5]], list(c[6]), list(c[7])] for c in case['calls']],
             [list(p) for p in case['progs']],
             list(case['sched'])]
 
 
 # ------------------------------------------------------------------ generation
+MODEL_CTX_CHOICES = [[], [], [3], [4], [3, 4], [4, 3], [5]]
+
+
 def gen_program(rng, p):
+    """streams: 'std' (events on stable models; add_model / remove_model only move spare models, but lists may
+    also name registered event targets), 'setup' (one extra thread first (un)registers the event targets with
+    add_model lists / re-adds / remove+add, then several threads send events to every target), 'removed'
+    (out of the envelope: events race with remove_model of their model)."""
     cls = CLASSES[p % len(CLASSES)]
-    hier = cls in HIER
+    x = rng.random()
+    stream = 'std' if x < 0.6 else ('setup' if x < 0.93 else 'removed')
     mctx = rng.choice([[], [], [1], [1], [1, 2]])
+    if stream == 'removed' and not mctx:
+        mctx = [1]
     nm = rng.randint(1, 3)
     models = []
     for m in range(nm):
-        cx = rng.choice([[], [], [3], [4], [3, 4], [4, 3], [5]])
-        models.append([m, rng.randrange(3), cx])
-    spare = []
-    for j in range(rng.choice([0, 1, 1, 2])):
-        spare.append(nm + j)
-        models.append([nm + j, rng.randrange(3), rng.choice([[], [5]])])
+        models.append([m, rng.randrange(3), 1, rng.choice(MODEL_CTX_CHOICES)])
+    targets = list(range(nm))
+    if stream == 'setup':
+        for m in range(nm, nm + rng.choice([0, 1, 1, 2])):      # targets that only the setup registers
+            models.append([m, rng.randrange(3), 0, []])
+            targets.append(m)
+    spare_reg, spare_new = [], []
+    base = len(models)
+    for j in range(rng.choice([0, 1, 2, 2, 3]) if stream != 'removed' else 0):
+        r = rng.random() < 0.5
+        models.append([base + j, rng.randrange(3), 1 if r else 0, rng.choice([[], [5]]) if r else []])
+        (spare_reg if r else spare_new).append(base + j)
     trans = []
     for e in range(2):
         for _ in range(rng.randint(2, 4)):
@@ -92,42 +123,100 @@ def gen_program(rng, p):
     fresh_states = [3, 4, 5]
     state_pool = [0, 1, 2, 3]
 
-    def new_call(depth, allow_script=True):
-        cid = len(calls) + 1
-        x = rng.random()
-        spec = [cid, 0, 0, 0, 0, []]
+    def spec_new(kind=0, a=0, b=0, c=0, ms=(), mc=()):
+        spec = [len(calls) + 1, kind, a, b, c, [], list(ms), list(mc)]
         calls.append(spec)
-        if x < 0.62 or (depth > 0 and x < 0.7):
-            spec[1], spec[2], spec[3] = 0, rng.randrange(nm), rng.randrange(2)
-            if allow_script and rng.random() < (0.45 if depth == 0 else 0.25):
+        return spec
+
+    def registration_call():
+        """add_model / remove_model that never unregisters an event target"""
+        spares = spare_reg + spare_new
+        if not spares:
+            return None
+        if rng.random() < 0.3:
+            return spec_new(4, ms=[rng.choice(spares)])
+        lst = rng.sample(spares, rng.randint(1, min(2, len(spares))))
+        y = rng.random()
+        if y < 0.3:
+            lst = [rng.choice(targets)] + lst                     # registered first
+        elif y < 0.55:
+            lst = lst + [rng.choice(targets)]                     # registered last
+        elif y < 0.7:
+            lst = lst + [lst[0]]                                  # duplicate inside the list
+        return spec_new(5, b=rng.randrange(3), ms=lst, mc=rng.choice([[], [], [5], [4], [3, 5]]))
+
+    def new_call(depth):
+        x = rng.random()
+        if x < 0.58 or (depth > 0 and x < 0.7):
+            spec = spec_new(0, rng.choice(targets), rng.randrange(2))
+            if rng.random() < (0.45 if depth == 0 else 0.25):
                 slot = rng.randrange(4)
                 if rng.random() < 0.35 or depth >= 2:
                     spec[5].append([slot, 1, 0])
                 else:
-                    sub = new_call(depth + 1)
-                    spec[5].append([slot, 2, sub])
+                    spec[5].append([slot, 2, new_call(depth + 1)])
                 if rng.random() < 0.25:
-                    slot2 = rng.choice([s for s in range(4) if s != slot])
+                    slot2 = rng.choice([s_ for s_ in range(4) if s_ != slot])
                     spec[5].append([slot2, 1, 0])
                 spec[5].sort()
-        elif x < 0.78:
-            spec[1], spec[2], spec[3] = 1, rng.randrange(nm), rng.choice(state_pool)
-        elif x < 0.9:
-            spec[1], spec[2], spec[3], spec[4] = 2, rng.randrange(2), rng.choice(state_pool), rng.randrange(3)
-        elif depth == 0 and fresh_states and x < 0.95:
-            spec[1], spec[2] = 3, fresh_states.pop(0)
-        elif depth == 0 and spare:
-            spec[1], spec[2] = 4, spare.pop(0)
-        else:
-            spec[1], spec[2], spec[3] = 0, rng.randrange(nm), rng.randrange(2)
-        return cid
+            return spec[0]
+        if x < 0.72:
+            return spec_new(1, rng.choice(targets), rng.choice(state_pool))[0]
+        if x < 0.82:
+            return spec_new(2, rng.randrange(2), rng.choice(state_pool), rng.randrange(3))[0]
+        if depth == 0 and fresh_states and x < 0.86:
+            return spec_new(3, fresh_states.pop(0))[0]
+        if depth == 0:
+            r = registration_call()
+            if r is not None:
+                return r[0]
+        return spec_new(0, rng.choice(targets), rng.randrange(2))[0]
 
-    nt = rng.choice([2, 2, 2, 3, 3, 4])
+    nt = rng.choice([2, 2, 2, 3, 3, 4]) if stream != 'setup' else rng.choice([2, 2, 3, 3])
     progs = []
     for _ in range(nt):
         progs.append([new_call(0) for _ in range(rng.choice([1, 1, 2, 2, 3]))])
+    if stream == 'setup':
+        # every target gets at least one event from some thread
+        for i, m in enumerate(targets):
+            if not any(c[1] == 0 and c[2] == m for c in calls):
+                progs[i % nt].append(spec_new(0, m, rng.randrange(2))[0])
+        reg = set(m for m, _, r, _ in models if r)
+        setup = []
+        for _ in range(rng.randint(2, 5)):
+            y = rng.random()
+            unreg = [m for m in targets if m not in reg]
+            regd = [m for m in targets if m in reg]
+            if y < 0.2 and regd:                                  # remove ... (re-added below or later)
+                lst = rng.sample(regd, rng.randint(1, min(2, len(regd))))
+                setup.append(spec_new(4, ms=lst)[0])
+                reg -= set(lst)
+                continue
+            new = rng.sample(unreg, rng.randint(1, len(unreg))) if unreg else []
+            old = rng.sample(regd, rng.randint(0, min(2, len(regd)))) if regd else []
+            z = rng.random()
+            lst = old + new if z < 0.45 else (new + old if z < 0.8 else new + old + new[:1] + old[:1])
+            if not lst:
+                lst = [rng.choice(targets)]
+            setup.append(spec_new(5, b=rng.randrange(3), ms=lst, mc=rng.choice([[], [3], [4], [5], [4, 3], [3, 5]]))[0])
+            reg |= set(lst)
+        unreg = [m for m in targets if m not in reg]
+        if unreg:
+            rng.shuffle(unreg)
+            lst = ([rng.choice([m for m in targets if m in reg])] if reg & set(targets) and rng.random() < 0.6 else []) + unreg
+            setup.append(spec_new(5, b=rng.randrange(3), ms=lst, mc=rng.choice([[], [3], [5], [4, 3]]))[0])
+        progs.append(setup)
+    if stream == 'removed':
+        victim = rng.choice(targets)
+        t = rng.randrange(nt)
+        pos = rng.randint(0, len(progs[t]))
+        progs[t].insert(pos, spec_new(4, ms=[victim])[0])
+        if rng.random() < 0.5:
+            progs[rng.randrange(nt)].append(spec_new(5, b=rng.randrange(3), ms=[victim], mc=rng.choice([[], [5]]))[0])
+        if not any(c[1] == 0 and c[2] == victim for c in calls):
+            progs[(t + 1) % nt].append(spec_new(0, victim, rng.randrange(2))[0])
     return dict(cls=cls, mctx=mctx, models=models, states=[0, 1, 2], trans=trans, calls=calls, progs=progs,
-                sched=[], mode=0)
+                sched=[], mode=0, stream=stream)
 
 
 def completion_suffix(nt, k=70):
@@ -138,10 +227,11 @@ def completion_suffix(nt, k=70):
     return out
 
 
-def gen_schedule(rng, nt):
-    out = []
+def gen_schedule(rng, nt, setup_first=False):
+    out = [nt] * 150 if setup_first else []
+    pre = len(out)
     style = rng.random()
-    n = rng.randint(5, 60)
+    n = pre + rng.randint(5, 60)
     while len(out) < n:
         t = rng.randint(1, nt)
         burst = 1 if style < 0.3 else rng.choice([1, 1, 2, 3, 5, 8])
@@ -160,7 +250,7 @@ def gen_batch(seed, n, tier):
                 break
             rs = random.Random('C06-%d-p%d-s%d' % (seed, p, s))
             c = copy.deepcopy(prog)
-            c['sched'] = gen_schedule(rs, len(c['progs']))
+            c['sched'] = gen_schedule(rs, len(c['progs']), c['stream'] == 'setup')
             cases.append(c)
         p += 1
     if tier == 'thorough':
@@ -176,7 +266,8 @@ def exhaustive_cases(seed, nprog, budget):
         rp = random.Random('C06-%d-x%d' % (seed, p))
         prog = gen_program(rp, p)
         p += 1
-        if len(prog['progs']) <= 3 and all(len(x) <= 2 for x in prog['progs']) and len(prog['calls']) <= 5:
+        if prog['stream'] == 'std' and len(prog['progs']) <= 3 and all(len(x) <= 2 for x in prog['progs']) \
+                and len(prog['calls']) <= 5:
             progs.append(prog)
     qs = []
     for prog in progs:
@@ -199,7 +290,7 @@ def exhaustive_cases(seed, nprog, budget):
 
 def gen(rng, i, tier):       # not used (gen_batch), kept for the interface
     prog = gen_program(rng, i)
-    prog['sched'] = gen_schedule(rng, len(prog['progs']))
+    prog['sched'] = gen_schedule(rng, len(prog['progs']), prog['stream'] == 'setup')
     return prog
 
 
@@ -316,11 +407,13 @@ class Run(object):
                            after_state_change=[self.callback(2)], finalize_event=[self.callback(3)], **kw)
         self.models = {}
         self.model_id = {}
-        for m, s, cx in case['models']:
+        for m, s, r, cx in case['models']:
             mo = Model()
             self.models[m] = mo
             self.model_id[id(mo)] = m
-            if cx:
+            if not r:
+                mo.state = 's%d' % s          # a model object the machine does not know yet
+            elif cx:
                 self.machine.add_model(mo, initial='s%d' % s, model_context=[self.ctx(c) for c in cx])
             else:
                 self.machine.add_model(mo, initial='s%d' % s)
@@ -354,8 +447,11 @@ class Run(object):
         return cb
 
     def do_call(self, w, cid):
-        _, kind, a, b, c, _ = self.specs[cid]
+        _, kind, a, b, c, _, ms, mc = self.specs[cid]
         m = self.machine
+        objs = [self.models[x] for x in ms]
+        if len(objs) == 1 and cid % 2:
+            objs = objs[0]                    # a single model may be passed bare
         if kind == 0:
             mo = self.models[a]
             if cid % 2:
@@ -368,8 +464,14 @@ class Run(object):
             f = lambda: m.add_transition('e%d' % a, 's%d' % b, 's%d' % c)   # noqa
         elif kind == 3:
             f = lambda: m.add_states('s%d' % a)                  # noqa
+        elif kind == 4:
+            f = lambda: m.remove_model(objs)                     # noqa
+        elif mc:
+            f = lambda: m.add_model(objs, initial='s%d' % b, model_context=[self.ctx(x) for x in mc])   # noqa
+        elif cid % 3 == 0:
+            f = lambda: m.add_model(objs, initial='s%d' % b, model_context=None)   # noqa
         else:
-            f = lambda: m.remove_model(self.models[a])           # noqa
+            f = lambda: m.add_model(objs, 's%d' % b)             # noqa
         r = _res(f)
         self.log.append([4, w.tid if w is not None else 0, cid, r])
         return r
@@ -382,10 +484,16 @@ class Run(object):
             for src in sorted(ev.transitions, key=lambda x: int(x[1:])):
                 for t in ev.transitions[src]:
                     trans.append([int(en[1:]), int(src[1:]), int(t.dest[1:])])
+        cmap = []
+        for k, mo in sorted(self.models.items()):
+            entry = m.model_context_map.get(id(mo))
+            if entry:
+                cmap.append([k, [x.cid if isinstance(x, Ctx) else (99 if type(x).__name__ == 'IdentManager' else 0)
+                                 for x in entry]])
         return [[[k, flat.state_int(mo)] for k, mo in sorted(self.models.items())],
                 [self.model_id[id(x)] for x in m.models],
                 [int(s[1:]) for s in m.states],
-                trans]
+                trans, cmap]
 
     # ---- scheduled run
     def default_lock_busy(self):
@@ -460,7 +568,7 @@ def impl_lock(case):
     th.join(CASE_TIMEOUT if _SLOW[0] < 2 else 2.5)
     if not box:
         _SLOW[0] += 1
-        return [1, [[[9, 0, 0]], [[], [], [], []], 0, 8]]      # hung
+        return [1, [[[9, 0, 0]], [[], [], [], [], []], 0, 8, 0]]      # hung
     return box[0]
 
 
@@ -474,7 +582,7 @@ def _impl_lock(case):
     log = run.log
     serial = 2
     if run.stuck:
-        return [1, [log, final, 0, 7]]
+        return [1, [log, final, 0, 7, 0]]
     if alldone:
         top = set(c for p in case['progs'] for c in p)
         order, per, cur = [], [], {}
@@ -492,16 +600,16 @@ def _impl_lock(case):
             serial = 1 if (sfinal == final and sper == per) else 0
         except BaseException as e:  # noqa
             return {'harness_error': 'serial reference: %s: %s' % (type(e).__name__, e)}
-    return [1, [log, final, 1 if alldone else 0, serial]]
+    return [1, [log, final, 1 if alldone else 0, serial, 0]]
 
 
 # ------------------------------------------------------------------ comparison helpers
 def canon(case, obs):
     if isinstance(obs, dict) or not isinstance(obs, list) or obs[0] != 1:
         return obs
-    log, final, alldone, serial = obs[1]
+    log, final, alldone, serial, bad = obs[1]
     tr = sorted([list(t) for t in final[3]], key=lambda t: (t[0], t[1]))
-    return [1, [log, [final[0], final[1], final[2], tr], alldone, serial]]
+    return [1, [log, [final[0], final[1], final[2], tr, sorted(final[4])], alldone, serial, bad]]
 
 
 def nontrivial(case, obs):
@@ -511,57 +619,90 @@ def nontrivial(case, obs):
     return any(x[0] == 3 or (x[0] == 4 and x[2] not in top) for x in obs[1][0])
 
 
-def expected_contexts(case, cid):
-    """instrumented contexts the PROPERTY demands for a top-level call, in order"""
-    spec = [c for c in case['calls'] if c[0] == cid][0]
-    cx = list(case['mctx'])
-    if spec[1] == 0:
-        cx += [c for m, _, mc in case['models'] if m == spec[2] for c in mc]
-    return cx
+def initial_configuration(case):
+    """model -> its model_context, for the models registered at the start"""
+    return {m: list(cx) for m, _, r, cx in case['models'] if r}
+
+
+def apply_registration(cfgmap, spec):
+    """what add_model / remove_model CONFIGURE (the property's reading, independent of locking.py): add_model
+    registers every listed model that is not registered, with the given model_context; a registered model
+    keeps its contexts; remove_model unregisters"""
+    if spec[1] == 5:
+        for m in spec[6]:
+            if m not in cfgmap:
+                cfgmap[m] = list(spec[7])
+    elif spec[1] == 4:
+        if all(m in cfgmap for m in spec[6]):
+            for m in spec[6]:
+                cfgmap.pop(m, None)
 
 
 def oracle_clauses(case, obs):
     """the property evaluated on the implementation's observation alone"""
     if not isinstance(obs, list) or obs[0] != 1:
         return ['no observation']
-    log, final, alldone, serial = obs[1]
+    log, final, alldone, serial, _ = obs[1]
     bad = []
     if not alldone:
         bad.append('deadlock: not every thread finished')
     if serial == 0:
         bad.append('not equal to the serial execution in acquisition order')
+    specs = {c[0]: c for c in case['calls']}
     top = set(c for p in case['progs'] for c in p)
+    mach = list(case['mctx'])
+    cfgmap = initial_configuration(case)
     cur = None
-    spans = {}
+    span, snapshot, held = [], {}, []
     for x in log:
         if x[0] == 3:
             continue
         t = x[1]
         if cur is None:
             cur = t
-            spans[t] = []
+            span, held = [], []
+            snapshot = {m: list(v) for m, v in cfgmap.items()}
         elif t != cur:
             bad.append('overlap: thread %d acts inside the processing of thread %d' % (t, cur))
             break
-        spans[t].append(x)
+        span.append(x)
+        if x[0] == 0:
+            held.append(x[2])
+        elif x[0] == 1 and x[2] in held:
+            held.remove(x[2])
+        elif x[0] == 2 and x[2] not in top and x[2] in specs and specs[x[2]][1] == 0:
+            need = cfgmap.get(specs[x[2]][2], [])
+            if not all(c in held for c in need):
+                bad.append('nested_model_contexts_not_entered')
+        elif x[0] == 4 and x[3][0] == 0 and x[2] in specs:
+            apply_registration(cfgmap, specs[x[2]])
         if x[0] == 4 and x[2] in top:
-            sp = spans.pop(t)
             cur = None
-            want = expected_contexts(case, x[2])
-            acq = [y[2] for y in sp if y[0] == 0]
-            rel = [y[2] for y in sp if y[0] == 1]
-            kinds = [y[0] for y in sp[:-1]]
+            spec = specs[x[2]]
+            want = list(mach)
+            if spec[1] == 0:
+                if spec[2] in snapshot:
+                    want += snapshot[spec[2]]
+                else:
+                    continue        # the model is not registered: the property configures nothing to compare with
+            acq = [y[2] for y in span if y[0] == 0]
+            rel = [y[2] for y in span if y[0] == 1]
+            kinds = [y[0] for y in span[:-1]]
             first_item = kinds.index(2) if 2 in kinds else len(kinds)
             last_item = len(kinds) - 1 - kinds[::-1].index(2) if 2 in kinds else -1
             shape_ok = all(k == 0 for k in kinds[:min(first_item, len(acq))]) and \
                 all(k != 0 for k in kinds[first_item:]) and all(k != 1 for k in kinds[:last_item + 1])
             if acq == want and rel == want[::-1] and shape_ok:
                 continue
-            if acq == list(case['mctx']) and rel == acq[::-1] and shape_ok and len(want) > len(acq):
+            if acq == mach and rel == acq[::-1] and shape_ok and len(want) > len(acq):
                 bad.append('model_contexts_not_entered')
             else:
                 bad.append('contexts not held in configured order around call %d: acquired %r released %r, '
                            'configured %r' % (x[2], acq, rel, want))
+    if alldone and not any(b.startswith('overlap') for b in bad):
+        want_map = sorted([m, (mach or [0]) + [99] + mc] for m, mc in cfgmap.items())
+        if sorted(final[4]) != want_map:
+            bad.append('model_context_map %r differs from the configuration %r' % (sorted(final[4]), want_map))
     return bad
 
 
@@ -570,16 +711,42 @@ def oracle(case, obs):
     return '; '.join(sorted(set(bad))) if bad else None
 
 
+def model_left_envelope(case, model_obs):
+    if model_obs is None:
+        try:
+            model_obs = F.run_model(KIND, [enc(case)])[0]
+        except Exception:  # noqa
+            return False
+    return isinstance(model_obs, list) and model_obs[0] == 1 and len(model_obs[1]) == 5 and bool(model_obs[1][4])
+
+
 def classify_known(case, model_obs, impl_obs):
-    """KF-C06-1: hierarchical locked class with a user model_context: the model contexts are never entered."""
-    if case['cls'] not in HIER or not any(cx for _, _, cx in case['models']):
-        return None
+    """KF-C06-1: hierarchical locked class, some model has a user model_context: model contexts are never entered
+                 (top-level or nested); observations agree with the model of the code, only that oracle clause fails.
+       KF-C06-2: LockedMachine, a nested event (triggered from a callback) on a model whose model_context is not
+                 held by the outer call; observations agree, only that clause fails.
+       KF-C06-3: LockedMachine, the model of the code reports that an event was entered on a model that is not
+                 registered at that moment (after remove_model): it is processed without the machine contexts."""
     if isinstance(impl_obs, dict):
         return None
+    hier = case['cls'] in HIER
+    if not hier and model_left_envelope(case, model_obs):
+        return 'KF-C06-3'
     if model_obs is not None and canon(case, model_obs) != canon(case, impl_obs):
         return None
     bad = set(oracle_clauses(case, canon(case, impl_obs)))
-    return 'KF-C06-1' if bad == {'model_contexts_not_entered'} else None
+    if not bad:
+        return None
+    has_model_ctx = any(cx for _, _, _, cx in case['models']) or any(c[1] == 5 and c[7] for c in case['calls'])
+    if hier and has_model_ctx and bad <= {'model_contexts_not_entered', 'nested_model_contexts_not_entered'}:
+        return 'KF-C06-1'
+    if not hier and bad == {'nested_model_contexts_not_entered'}:
+        return 'KF-C06-2'
+    return None
+
+
+def in_envelope(case):
+    return case.get('stream', 'std') != 'removed'
 
 
 def stats(case, obs, dist):
@@ -588,8 +755,9 @@ def stats(case, obs, dist):
     inc('cls_' + case['cls'])
     inc('threads_%d' % len(case['progs']))
     inc('machine_context_' + ('default' if not case['mctx'] else 'user%d' % len(case['mctx'])))
-    if any(cx for _, _, cx in case['models']):
+    if any(cx for _, _, _, cx in case['models']):
         inc('with_model_context')
+    inc('stream_' + case.get('stream', 'std'))
     if case.get('exhaustive'):
         inc('schedule_from_enumeration_' + str(case['exhaustive']).replace(' ', '_'))
     if isinstance(obs, list) and obs[0] == 1:
@@ -602,7 +770,7 @@ def stats(case, obs, dist):
         if any(x[0] == 4 and x[3][0] == 1 for x in log):
             inc('schedules_with_raising_call')
         kinds = set(c[1] for c in case['calls'])
-        for k, n in ((1, 'set_state'), (2, 'add_transition'), (3, 'add_states'), (4, 'remove_model')):
+        for k, n in ((1, 'set_state'), (2, 'add_transition'), (3, 'add_states'), (4, 'remove_model'), (5, 'add_model')):
             if k in kinds:
                 inc('cases_with_' + n)
 
